@@ -6,7 +6,10 @@ from tartiflette.coercers.common import CoercionResult, Path
 from tartiflette.coercers.literals.null_and_variable_coercer import (
     null_and_variable_coercer_wrapper,
 )
-from tartiflette.coercers.literals.utils import is_missing_variable
+from tartiflette.coercers.literals.utils import (
+    is_missing_variable,
+    relocate_default_value_errors,
+)
 from tartiflette.constants import UNDEFINED_VALUE
 from tartiflette.language.ast import ObjectValueNode
 from tartiflette.utils.values import is_invalid_value
@@ -23,6 +26,7 @@ async def input_field_value_coercer(
     ctx: Optional[Any],
     variables: Optional[Dict[str, Any]],
     path: Optional["Path"],
+    object_node: Optional["ObjectValueNode"] = None,
 ) -> Union["CoercionResult", "UNDEFINED_VALUE", "SKIP_FIELD"]:
     """
     Computes the value of an input field.
@@ -32,20 +36,24 @@ async def input_field_value_coercer(
     :param ctx: context passed to the query execution
     :param variables: the variables provided in the GraphQL request
     :param path: the path traveled until this coercer
+    :param object_node: the AST node of the input object
     :type input_field: GraphQLInputField
     :type parent_node: Union[VariableDefinitionNode, InputValueDefinitionNode]
     :type value_node: Union[ValueNode, VariableNode, UNDEFINED_VALUE]
     :type ctx: Optional[Any]
     :type variables: Optional[Dict[str, Any]]
     :type path: Optional[Path]
+    :type object_node: Optional[ObjectValueNode]
     :return: the computed value
     :rtype: Union[CoercionResult, UNDEFINED_VALUE, SKIP_FIELD]
     """
+    uses_default_value = False
     if is_invalid_value(value_node) or is_missing_variable(
         value_node.value, variables
     ):
         if input_field.default_value is not None:
             input_field_node = input_field.default_value
+            uses_default_value = True
         elif input_field.graphql_type.is_non_null_type:
             return UNDEFINED_VALUE
         else:
@@ -53,9 +61,12 @@ async def input_field_value_coercer(
     else:
         input_field_node = value_node.value
 
-    return await input_field.literal_coercer(
+    coercion_result = await input_field.literal_coercer(
         parent_node, input_field_node, ctx, variables=variables, path=path
     )
+    if uses_default_value:
+        relocate_default_value_errors(coercion_result, object_node)
+    return coercion_result
 
 
 @null_and_variable_coercer_wrapper
@@ -107,6 +118,7 @@ async def input_object_coercer(
                 ctx,
                 variables,
                 path=Path(path, input_field_name),
+                object_node=node,
             )
             for input_field_name, input_field in input_fields.items()
         ]
